@@ -142,7 +142,7 @@ class BMSIO(GameIO):
         for b in bp:
             if not (_num_ok(b.get("offset")) and _num_ok(b.get("bpm")) and b["bpm"] > 0 and eqv(b.get("metronome", NAN), 4)):
                 return "tempo point out of domain"
-            if abs(round(float(b["bpm"]), 3) - float(b["bpm"])) > 1e-12:
+            if abs(round(float(b["bpm"]), 3) - float(b["bpm"])) > 1e-12 and not self.structural_only:
                 return "tempo value with more than 3 decimals"
         tl = timeline(bp)
         if len({t for t, _, _ in tl}) != len(tl):
@@ -156,22 +156,23 @@ class BMSIO(GameIO):
         m = a["meta"]
         lnobj = m.get("ln_end_channel")
         samples = _dictify(m.get("samples"))
-        if not (isinstance(lnobj, bytes) and len(lnobj) == 2) or lnobj in samples or lnobj in (b"00", b"01"):
+        sem = not self.structural_only  # C14 writes: only the structural preconditions gate the op
+        if sem and (not (isinstance(lnobj, bytes) and len(lnobj) == 2) or lnobj in samples or lnobj in (b"00", b"01")):
             return "LNOBJ id"
         for k, v in samples.items():
-            if not (isinstance(k, bytes) and len(k) == 2 and k != b"00" and isinstance(v, bytes) and v and b"\n" not in v and b"\r" not in v):
+            if sem and not (isinstance(k, bytes) and len(k) == 2 and k != b"00" and isinstance(v, bytes) and v and b"\n" not in v and b"\r" not in v):
                 return "sample table"
-        if len(set(samples.values())) != len(samples):
+        if sem and len(set(samples.values())) != len(samples):
             return "sample table has duplicate files"
         for f in ("title", "artist", "version"):
-            if not isinstance(m.get(f), bytes) or b"\n" in m[f] or b"\r" in m[f]:
+            if sem and (not isinstance(m.get(f), bytes) or b"\n" in m[f] or b"\r" in m[f]):
                 return f"header {f}"
         per_lane: dict[int, list] = {}
         for k in ("hits", "holds"):
             for r in _rows(a, k):
                 if not (_num_ok(r.get("offset")) and r["offset"] >= 0 and _num_ok(r.get("column")) and float(r["column"]).is_integer() and int(r["column"]) in cols_ok):
                     return f"{k} row out of domain"
-                if not isinstance(r.get("sample"), bytes):
+                if sem and not isinstance(r.get("sample"), bytes):
                     return "sample not bytes"
                 t0 = float(r["offset"])
                 if tl[-1][2] + (t0 + (float(r.get("length") or 0) if k == "holds" else 0) - tl[-1][0]) * tl[-1][1] / 60000.0 >= 4000 - 1e-6:
